@@ -2,6 +2,11 @@ import ErgoVerif.Model.Edf
 namespace ErgoVerif.Edf
 open ErgoVerif.Generated.Edt
 
+@[simp] theorem lenLt_eq : (bs : Bytes) → (n : Nat) → lenLt bs n = decide (bs.length < n)
+  | _, 0 => by simp [lenLt]
+  | [], n+1 => by simp [lenLt]
+  | _ :: r, n+1 => by simp [lenLt, lenLt_eq r n]
+
 theorem rd16_be16 (n : Nat) (h : n < 65536) (r : Bytes) : rd16 (be16 n ++ r) = some (n, r) := by
   simp only [be16, rd16, List.cons_append, List.nil_append]
   congr 2
